@@ -180,6 +180,10 @@ func vArbitrary(L int) {
 	n := vNondetInt()
 	vAssume(n >= 0 && n <= L)
 	p := vNondetBytes(n)
+	vArbitraryBytes(p)
+}
+
+func vArbitraryBytes(p []byte) {
 	vReach("entry")
 	y, err := Unpack(nil, p)
 	r, ok := refUnpack(p, 1<<20)
@@ -199,12 +203,95 @@ func vArbitrary(L int) {
 	}
 }
 
+// vGroupLen is the number of packed bytes of the group that starts with tag t, not counting the
+// literal words of an 0xff run: tag, one byte per set bit, and the count byte of 0x00 / 0xff.
+func vGroupLen(t byte) int {
+	n := 1
+	for i := uint(0); i < 8; i++ {
+		if t&(1<<i) != 0 {
+			n++
+		}
+	}
+	if t == 0 || t == 0xff {
+		n++
+	}
+	return n
+}
+
+// one group with ANY tag byte, complete or cut anywhere (a cut 0xff group includes a count byte that
+// promises literal words that are not there)
+func VH_C13_group_any() {
+	n := vNondetInt()
+	vAssume(n >= 1 && n <= 10)
+	p := vNondetBytes(n)
+	vAssume(n <= vGroupLen(p[0]))
+	vArbitraryBytes(p)
+}
+
+// two groups: the first complete with any tag whose high nibble is hi (an 0xff group with at most
+// one literal word), the second with any tag, complete up to its count byte (an 0xff second group
+// with a non-zero count is therefore a stream cut before its literal words)
+func vGroupPair(hi byte) {
+	n := vNondetInt()
+	vAssume(n >= 2 && n <= 28)
+	p := vNondetBytes(n)
+	t1 := p[0]
+	vAssume(t1>>4 == hi)
+	g1 := vGroupLen(t1)
+	vAssume(n > g1)
+	if t1 == 0xff {
+		c := int(p[9])
+		vAssume(c <= 1)
+		g1 += 8 * c
+		vAssume(n > g1)
+	}
+	vAssume(n-g1 == vGroupLen(p[g1]))
+	vArbitraryBytes(p)
+}
+
+func VH_C13_pair_0() { vGroupPair(0) }
+func VH_C13_pair_1() { vGroupPair(1) }
+func VH_C13_pair_2() { vGroupPair(2) }
+func VH_C13_pair_3() { vGroupPair(3) }
+func VH_C13_pair_4() { vGroupPair(4) }
+func VH_C13_pair_5() { vGroupPair(5) }
+func VH_C13_pair_6() { vGroupPair(6) }
+func VH_C13_pair_7() { vGroupPair(7) }
+func VH_C13_pair_8() { vGroupPair(8) }
+func VH_C13_pair_9() { vGroupPair(9) }
+func VH_C13_pair_a() { vGroupPair(10) }
+func VH_C13_pair_b() { vGroupPair(11) }
+func VH_C13_pair_c() { vGroupPair(12) }
+func VH_C13_pair_d() { vGroupPair(13) }
+func VH_C13_pair_e() { vGroupPair(14) }
+func VH_C13_pair_f() { vGroupPair(15) }
+
+// every packed string of at most L bytes whose first byte has high nibble hi (shards of vArbitrary)
+func vArbitraryShard(L int, hi byte) {
+	n := vNondetInt()
+	vAssume(n >= 1 && n <= L)
+	p := vNondetBytes(n)
+	vAssume(p[0]>>4 == hi)
+	vArbitraryBytes(p)
+}
+
+func VH_C13_arb6_0() { vArbitraryShard(6, 0) }
+func VH_C13_arb6_1() { vArbitraryShard(6, 1) }
+func VH_C13_arb6_2() { vArbitraryShard(6, 2) }
+func VH_C13_arb6_3() { vArbitraryShard(6, 3) }
+func VH_C13_arb6_4() { vArbitraryShard(6, 4) }
+func VH_C13_arb6_5() { vArbitraryShard(6, 5) }
+func VH_C13_arb6_6() { vArbitraryShard(6, 6) }
+func VH_C13_arb6_7() { vArbitraryShard(6, 7) }
+func VH_C13_arb6_8() { vArbitraryShard(6, 8) }
+func VH_C13_arb6_9() { vArbitraryShard(6, 9) }
+func VH_C13_arb6_a() { vArbitraryShard(6, 10) }
+func VH_C13_arb6_b() { vArbitraryShard(6, 11) }
+func VH_C13_arb6_c() { vArbitraryShard(6, 12) }
+func VH_C13_arb6_d() { vArbitraryShard(6, 13) }
+func VH_C13_arb6_e() { vArbitraryShard(6, 14) }
+func VH_C13_arb6_f() { vArbitraryShard(6, 15) }
 func VH_C13_arbitrary_4()  { vArbitrary(4) }
-func VH_C13_arbitrary_6()  { vArbitrary(6) }
-func VH_C13_arbitrary_8()  { vArbitrary(8) }
-func VH_C13_arbitrary_10() { vArbitrary(10) }
-func VH_C13_arbitrary_12() { vArbitrary(12) }
-func VH_C13_arbitrary_20() { vArbitrary(20) }
 
 // ---- streaming reader ----
 
